@@ -227,25 +227,72 @@ def _exc(r):
 
 
 def rule_increase_width(ck, rid="C04.R4"):
+    """_increase_width(a, w): `a` itself only when w <= a.shape[1]; otherwise a matrix of w columns whose first a.shape[1] columns are a
+    and whose remaining columns are zero.  Recognised constructions: zeros((rows, w)) + block copy; concatenate / hstack of a and a
+    zeros((rows, w - a.shape[1])) block; np.pad of the column axis by (0, w - a.shape[1])."""
     repo = ck.repo
     f = repo.fn("_increase_width")
     fl = flow_of(f)
     a, tw = f.params[0], f.params[1]
+    width = f"{a}.shape[1]"
+    need = Lin({tw: 1, width: -1})            # "wide enough"  <=>  need <= 0
     rets = [n for n in fl.cfg.nodes if n.kind == "return"]
     ck.floor(rid, len(rets), 1, "returns of _increase_width")
+    falls = [p_ for p_ in fl.cfg.exit.pred if p_.kind != "return"]
+    ck.require(not falls, rid, f, falls[0].stmt if falls and falls[0].stmt is not None else "end of function", ok="every path returns an array",
+               bad="_increase_width can fall off the end and return None: the history matrix is replaced by None", sink="falls-off")
+
+    def same_array(e):
+        e = e
+        while isinstance(e, ast.Call) and call_name(e) in ("asarray", "array", "ascontiguousarray", "copy", "atleast_2d") and e.args:
+            e = e.args[0]
+        return canon(e) == a
+
+    def zeros_block(e, cols_lin):
+        if not (isinstance(e, ast.Call) and call_name(e) in ("zeros", "full") and e.args):
+            return False
+        shp = e.args[0]
+        if call_name(e) == "full" and not (len(e.args) > 1 and isinstance(e.args[1], ast.Constant) and e.args[1].value == 0):
+            return False
+        if not (isinstance(shp, (ast.Tuple, ast.List)) and len(shp.elts) == 2):
+            return False
+        return canon(shp.elts[0]) in (f"{a}.shape[0]", f"len({a})") and linear(shp.elts[1], norm=canon) == cols_lin
     for r in rets:
         v = r.expr
-        if v is not None and canon(fl.expand(v, r)) == a:
-            # returning the argument itself must be on the edge target_width <= a.shape[1]
-            ok = any((c := cmp_norm(fl.expand(x, r), t)) and c[1] in ("<=", "<") and canon(c[0]) == tw and canon(c[2]) == f"{a}.shape[1]"
-                     for x, t in facts_at(fl, r))
+        ex = fl.expand(v, r) if v is not None else None
+        if ex is not None and canon(ex) == a:
+            ok = False
+            for x, t in facts_at(fl, r):
+                c = cmp_norm(fl.expand(x, r), t)
+                if c and c[1] in ("<=", "<"):
+                    d = linear(c[0], norm=canon) - linear(c[2], norm=canon)
+                    if d == need:
+                        ok = True
             ck.require(ok, rid, f, r.stmt, ok="unchanged array only when it is already wide enough",
                        bad="the unchanged array may be returned although it is too narrow", sink="return-unchanged")
+            continue
+        if ex is None:
+            raise AnalysisError(f"_increase_width: return form not recognised: {src(r.stmt)}")
+        # (b) concatenation of the array and a zero block of the missing width
+        if isinstance(ex, ast.Call) and call_name(ex) in ("concatenate", "hstack", "append") and ex.args:
+            parts = ex.args[0].elts if isinstance(ex.args[0], (ast.Tuple, ast.List)) else list(ex.args[:2])
+            axis_ok = call_name(ex) == "hstack" or any(k.arg == "axis" and isinstance(k.value, ast.Constant) and k.value.value in (1, -1) for k in ex.keywords)
+            ok = len(parts) == 2 and axis_ok and same_array(parts[0]) and zeros_block(parts[1], need)
+            ck.require(ok, rid, f, r.stmt, ok="existing columns followed by the missing zero columns",
+                       bad=f"the grown matrix `{src(ex, 70)}` is not [a | zeros(rows, target_width - a.shape[1])] along the period axis", sink="grown-concat")
+            continue
+        if isinstance(ex, ast.Call) and call_name(ex) == "pad" and len(ex.args) >= 2:
+            pw = ex.args[1]
+            ok = same_array(ex.args[0]) and isinstance(pw, (ast.Tuple, ast.List)) and len(pw.elts) == 2 and canon(pw.elts[0]) in ("(0, 0)", "[0, 0]") and \
+                isinstance(pw.elts[1], (ast.Tuple, ast.List)) and len(pw.elts[1].elts) == 2 and canon(pw.elts[1].elts[0]) == "0" and \
+                linear(pw.elts[1].elts[1], norm=canon) == need
+            ck.require(ok, rid, f, r.stmt, ok="zero-padded on the right of the period axis", bad=f"`{src(ex, 70)}` does not pad (0, target_width - a.shape[1]) zero columns on the period axis",
+                       sink="grown-pad")
             continue
         if not isinstance(v, ast.Name):
             raise AnalysisError(f"_increase_width: return form not recognised: {src(r.stmt)}")
         name = v.id
-        init = fl.expand(v, r)
+        init = ex
         fresh = isinstance(init, ast.Call) and call_name(init) in ("zeros", "zeros_like", "full") and tw in canon(init) and f"{a}.shape[0]" in canon(init)
         ck.require(fresh, rid, f, r.stmt, ok="fresh zero matrix of the target width", bad="the grown matrix must be zeros((a.shape[0], target_width))",
                    sink="grown-fresh")
@@ -348,3 +395,7 @@ def run(ck):
     # "the pilot applied to each station is the scheduled value": what update_pilots sends is latched by every EVSE, occupied or not
     from .c13 import rule_set_pilot_table
     ck.attempt(rule_set_pilot_table, rid="C04.R9")
+    # the period loop: pilots of period t are sent after the period's schedule was written, from column t exactly, and the history
+    # matrices are grown (content-preserving) to cover column t in every period (shared with C01)
+    from .c01 import rule_loop
+    ck.attempt(rule_loop, rid="C04.R10")
